@@ -91,6 +91,54 @@ def special_document(rng, kind):
                 }
             },
         }, "cases"
+    if kind == "string_cookies_only":
+        return {
+            "openapi": "3.0.2",
+            "info": {"title": "t", "version": "1"},
+            "paths": {
+                "/op": {
+                    "get": {
+                        "parameters": [
+                            {"name": "c1", "in": "cookie", "required": False, "schema": {"type": "string"}},
+                            {"name": "c2", "in": "cookie", "required": False, "schema": {"type": "string"}},
+                        ],
+                        "responses": ok,
+                    }
+                }
+            },
+        }, "unknown-but-not-unsatisfiable"
+    if kind == "string_cookies_plus_int_query":
+        return {
+            "openapi": "3.0.2",
+            "info": {"title": "t", "version": "1"},
+            "paths": {
+                "/op": {
+                    "get": {
+                        "parameters": [
+                            {"name": "c1", "in": "cookie", "required": False, "schema": {"type": "string"}},
+                            {"name": "n", "in": "query", "required": True, "schema": {"type": "integer"}},
+                        ],
+                        "responses": ok,
+                    }
+                }
+            },
+        }, "cases"
+    if kind == "string_headers_plus_int_query":
+        return {
+            "openapi": "3.0.2",
+            "info": {"title": "t", "version": "1"},
+            "paths": {
+                "/op": {
+                    "get": {
+                        "parameters": [
+                            {"name": "X-A", "in": "header", "required": False, "schema": {"type": "string"}},
+                            {"name": "n", "in": "query", "required": True, "schema": {"type": "integer"}},
+                        ],
+                        "responses": ok,
+                    }
+                }
+            },
+        }, "cases"
     if kind == "additional_only_object":
         return {
             "openapi": "3.0.2",
@@ -106,7 +154,7 @@ def special_document(rng, kind):
     raise AssertionError(kind)
 
 
-SPECIALS = ["no_inputs", "empty_body_schema", "string_header_only", "string_path_only", "string_path_plus_int_query", "additional_only_object", "optional_body_only"]
+SPECIALS = ["no_inputs", "empty_body_schema", "string_header_only", "string_path_only", "string_path_plus_int_query", "additional_only_object", "optional_body_only", "string_cookies_only", "string_cookies_plus_int_query", "string_headers_plus_int_query"]
 
 
 def surely_violable(declared, bodies):
@@ -146,7 +194,7 @@ def run_shard(spec, emit):
     n_draws = 15 if tier == "quick" else 40
     deadline = time.monotonic() + (85 if tier == "quick" else 300)
     samples = 0
-    jobs = [("special", k) for k in SPECIALS if rng.random() < (0.5 if tier == "quick" else 1.0)] + [("random", None)] * n_ops
+    jobs = [("special", k) for k in SPECIALS if rng.random() < (0.6 if tier == "quick" else 1.0)] + [("random", None)] * n_ops
     for op_idx, (jkind, special) in enumerate(jobs):
         if time.monotonic() > deadline:
             break
@@ -201,6 +249,8 @@ def run_shard(spec, emit):
                 if any(s.get("type") == "string" and not (set(s) - {"type"}) for s, _ in declared["path"].values()):
                     key += ":unconstrained-string-path-parameter"
                 emit.viol(key, f"outcome={outcome} although an input can be violated", context)
+            if expectation == "unknown-but-not-unsatisfiable" and outcome == "unsatisfiable":
+                emit.viol("C02/operation-reported-as-impossible-instead-of-skipped-or-tested", "Unsatisfiable for an operation whose inputs are all optional plain strings", context)
             if expectation == "skip" and outcome != "skip":
                 if outcome == "cases":
                     emit.viol("C02/unviolable-operation-got-negative-cases", f"{len(seen)} cases for an operation with nothing to violate", context)
